@@ -499,6 +499,20 @@ func runC13(c *mon.Ctx) {
 					}
 					return true
 				},
+				// ... and a line in the older form (no destination parameter) does not take back what another line said: a
+				// request one of whose lines names a foreign destination is for that server, whatever the order of the lines
+				"header-foreign-destination-next-to-line-without-destination": func(w *wireReq) bool {
+					x := xm
+					x.dest = "not.mine.example"
+					older := fmt.Sprintf("X-Matrix origin=\"%s\",key=\"%s\",sig=\"%s\"", xm.origin, xm.key, xm.sig)
+					w.delHeader("Authorization")
+					if tr.Chance(0.5) {
+						w.headers = append(w.headers, [2]string{"Authorization", x.String()}, [2]string{"Authorization", older})
+					} else {
+						w.headers = append(w.headers, [2]string{"Authorization", older}, [2]string{"Authorization", x.String()})
+					}
+					return true
+				},
 				// two lines for the same key ID that disagree on the signature: one set of headers, one verdict - and no
 				// reading of it makes the request well-formed
 				"header-same-key-on-two-lines": func(w *wireReq) bool {
